@@ -162,14 +162,14 @@ class KNeighborsFit(Contract):
         return out
 
 
-def _fitted_knn(B, k, reduction, n_name="n_data"):
+def _fitted_knn(B, k, reduction, n_name="n_data", dkind="f"):
     import verde
 
     est = verde.KNeighbors(k=k, reduction=REDUCTIONS[reduction][0])
     n = B.dim(n_name, 1)
     pts = B.array("data_points", (n, 2))
     est.tree_ = SymKDTree(pts)
-    est.data_ = B.array("data_values", (n,))
+    est.data_ = B.array("data_values", (n,), dkind)
     est.region_ = (B.real("fW"), B.real("fE"), B.real("fS"), B.real("fN"))
     return est
 
@@ -188,13 +188,15 @@ class KNeighborsPredict(Contract):
                 out.append({"k": k, "reduction": red, "rank": rank})
         out.append({"k": 1, "reduction": "mean", "rank": 1, "extra": 1})
         out.append({"k": 1, "reduction": "mean", "rank": 1, "fitted": False})
+        # integer-valued data kept with an integer dtype: the mean / median of k >= 2 of them is generally fractional
+        out += [{"k": 2, "reduction": "mean", "rank": 1, "dkind": "i"}, {"k": 2, "reduction": "median", "rank": 2, "dkind": "i"}, {"k": 3, "reduction": "max", "rank": 1, "dkind": "i"}]
         return out
 
     def setup(self, B, cfg):
         import verde
 
         if cfg.get("fitted", True):
-            est = _fitted_knn(B, cfg["k"], cfg["reduction"])
+            est = _fitted_knn(B, cfg["k"], cfg["reduction"], dkind=cfg.get("dkind", "f"))
         else:
             est = verde.KNeighbors(k=cfg["k"], reduction=NP.mean)
         coords = _coords(B, cfg["rank"], cfg.get("extra", 0), names=("q_easting", "q_northing"), minsize=0)
@@ -232,6 +234,11 @@ class KNeighborsPredict(Contract):
             q = (nrng.uniform(0, 2 * n, 7), nrng.uniform(0, 2 * n, 7))
             yield (verde.KNeighbors(k=rng.randint(1, 3)).fit((ie, fn), vals), q), {}
             yield (verde.KNeighbors(k=1).fit((fn, ie.astype("int32")), vals), q), {}
+        for dt in ("int64", "int32", "float32", "uint8"):  # data values of other dtypes (counts, class codes, float32 grids)
+            n = rng.randint(6, 12)
+            vals = nrng.randint(0, 50, n).astype(dt)
+            est = verde.KNeighbors(k=rng.randint(2, 4), reduction=rng.choice([np.mean, np.median])).fit((nrng.uniform(-5, 5, n), nrng.uniform(-5, 5, n)), vals)
+            yield (est, _rand_coords(rng, nrng, rng.choice([1, 2]), 0, scale=6.0)), {}
         yield (verde.KNeighbors(), (np.zeros(2), np.zeros(2))), {}
 
     def ensures(self, a, r):
@@ -253,6 +260,8 @@ class KNeighborsPredict(Contract):
 
         def body(nbr):
             def row(q):
+                if isinstance(nbr, _Table) and nbr.skip(q):
+                    return [0] * k  # a query with a distance tie: skipped by every clause below (placeholders)
                 return [nbr.at(q, c) for c in range(k)]
 
             parts = [
@@ -354,6 +363,8 @@ class MedianDistance(Contract):
                     hint(p, p)
                     for t in range(k + off):
                         hint(p, nbr.at(p, t))
+                if isinstance(nbr, _Table) and nbr.skip(p):
+                    return [0] * k  # a query with a distance tie: skipped by every clause below (placeholders)
                 return [nbr.at(p, c + off) for c in range(k)]
 
             def per_point(f):
